@@ -102,7 +102,9 @@ def kernel_unit(kind, n, col, spread_form, weighted):
             c.prove(np.asarray(d1, dtype=object).ravel().shape == (n,) and np.asarray(d2, dtype=object).ravel().shape == (n,), "derivative arrays have one entry per observation")
     return Unit("C14.%s[n=%d,col=%s,spread=%s,weighted=%s]" % (kind, n, col, spread_form, weighted), h,
                 bounds={"observations": n, "single_column_input": col, "spread": spread_form, "weights": "symbolic" if weighted else "unit",
-                        "ranges": "y,yhat in [0.1,40] (integers >= 1 for counts), spread in [0.2,5]"}, tol=1e-6, max_paths=200)
+                        "ranges": "y,yhat in [0.1,40] (integers >= 1 for counts), spread in [0.2,5]",
+                        "float_stress_points": "observations x50; predictions x50; observations x1000 with predictions /20; observations x1000"}, tol=1e-6, max_paths=200,
+                stress={"scales": [{"y": 50.0}, {"yh": 50.0}, {"y": 1000.0, "yh": 0.05}, {"y": 1000.0}]} if not weighted else None)
 
 
 def typed_unit(kind, ydtype, spread):
